@@ -438,6 +438,15 @@ fn check_type_relation<T: TypeLookup>(
             })
         }
 
+        // Partial type vs concrete tuple: never assignable (the partial admits other tuples too),
+        // but the two share a value exactly when the tuple fits the partial.
+        (Type::Partial { .. }, Type::Tuple(_)) => match mode {
+            UnionMode::All => false,
+            UnionMode::Any => {
+                check_type_relation(pattern_id, self_id, lookup, mode, assumptions, type_stack)
+            }
+        },
+
         // Partial vs partial - check structural compatibility
         (
             Type::Partial {
